@@ -76,7 +76,23 @@ func inPlacePolicyIsNormalisedLikeAFreshStart(c *core.Ctx) {
 			sig := f.Obj.Type().(*types.Signature)
 			for i := 0; i < sig.Params().Len(); i++ {
 				if sig.Params().At(i) == o {
-					return false
+					// a parameter: normalised when it is never re-assigned here and every call of f hands in a normalised value
+					if len(core.DefsOf(f, o)) > 0 {
+						return false
+					}
+					calls := 0
+					for _, g := range p.AllFuncs() {
+						if g.Decl.Body == nil {
+							continue
+						}
+						for _, call := range core.Calls(g.Pkg, g.Decl.Body, func(fo *types.Func) bool { return fo == f.Obj }) {
+							calls++
+							if i >= len(call.Args) || !isNormD(g, call.Args[i], depth+1) {
+								return false
+							}
+						}
+					}
+					return calls > 0
 				}
 			}
 			defs := core.DefsOf(f, o)
